@@ -35,13 +35,18 @@ struct SchedReader<'a> {
     idx: usize,
     err_at: Option<(usize, ErrorKind)>,
     reads: usize,
+    /// the injected error is reported once; afterwards the reader goes on delivering (a timed-out socket read)
+    one_shot: bool,
+    fired: bool,
 }
 
 impl<'a> Read for SchedReader<'a> {
     fn read(&mut self, buf: &mut [u8]) -> std::io::Result<usize> {
         self.reads += 1;
+        let armed = !(self.one_shot && self.fired);
         if let Some((k, kind)) = self.err_at {
-            if self.pos >= k {
+            if self.pos >= k && armed {
+                self.fired = true;
                 return Err(std::io::Error::new(kind, Marker(k)));
             }
         }
@@ -52,7 +57,9 @@ impl<'a> Read for SchedReader<'a> {
         }
         let mut n = (s as usize).min(buf.len()).min(self.data.len() - self.pos);
         if let Some((k, _)) = self.err_at {
-            n = n.min(k - self.pos);
+            if armed {
+                n = n.min(k - self.pos);
+            }
         }
         buf[..n].copy_from_slice(&self.data[self.pos..self.pos + n]);
         self.pos += n;
@@ -108,19 +115,73 @@ pub fn check(tape: &[u32], thorough: bool) -> CheckResult {
     }
     let plan = build_plan(&mut t);
     let enc = encode(&s, &plan);
+    let model = super::c01::summarize(&s);
+    let (sched_count, interrupted, mut faults, scheds, kinds) = run_on(&enc.bytes, enc.last_frame_end(), &mut t, thorough, tape.len(), &model, true)?.expect("base variant always returns counters");
     let bytes = &enc.bytes;
     let l = enc.last_frame_end();
-    let detail = |extra: serde_json::Value| json!({"input_hex": if bytes.len() < 8000 { hex(bytes) } else { String::new() }, "model": super::c01::summarize(&s), "what": extra});
-    let base = AsepriteFile::read(&bytes[..]).map_err(|e| Failure::new("load-error", format!("well-formed file failed to load: {}", e)).with(detail(json!(null))))?;
+    // A frame whose size field covers more than its chunks (padding after the last chunk). The unchanged library
+    // refuses such files; a reader that accepts them has to treat them like any other file: same result under every
+    // read schedule, and an I/O error inside the padding of a non-last frame is an error before the needed data.
+    let mut padded_label = None;
+    if enc.frame_starts.len() >= 2 && t.chance(2, 3) {
+        // (never the last frame: whether padding after the last chunk of the file is "needed data" is open)
+        let fi = t.below(enc.frame_starts.len() as u32 - 1) as usize;
+        let pad = 6 + t.below(40) as usize;
+        let (fs, fe) = (enc.frame_starts[fi], enc.frame_ends[fi]);
+        let mut pb = bytes[..fe].to_vec();
+        // the padding must not look like a frame header: a reader that ignores frame sizes would otherwise parse it
+        // as the following frames and "accept" the file by accident
+        pb.extend(std::iter::repeat(0xA5u8).take(pad));
+        pb.extend_from_slice(&bytes[fe..]);
+        let fsz = u32::from_le_bytes([pb[fs], pb[fs + 1], pb[fs + 2], pb[fs + 3]]) + pad as u32;
+        pb[fs..fs + 4].copy_from_slice(&fsz.to_le_bytes());
+        if u32::from_le_bytes([bytes[0], bytes[1], bytes[2], bytes[3]]) as usize == bytes.len() {
+            let n = pb.len() as u32;
+            pb[0..4].copy_from_slice(&n.to_le_bytes());
+        }
+        match run_on(&pb, l + pad, &mut t, thorough, tape.len() + 1, &model, false)? {
+            Some((_, _, f2, _, _)) => {
+                faults += f2;
+                padded_label = Some("padded-frame:accepted");
+            }
+            None => padded_label = Some("padded-frame:refused"),
+        }
+    }
+    let mut o = Outcome::new(true, hash_bytes(bytes));
+    o.counters.push(("schedules", sched_count));
+    o.counters.push(("schedules_with_interrupted", interrupted));
+    o.counters.push(("fault_injections", faults));
+    o.labels.push(if l <= 8192 { "every-offset".into() } else { "sampled-offsets".into() });
+    if let Some(pl) = padded_label {
+        o.labels.push(pl.into());
+    }
+    if enc.chunks.iter().any(|c| c.end - c.start > 65536 + 6) {
+        o.labels.push("chunk>64KiB".into());
+    }
+    o.sample = Some(json!({"file_len": bytes.len(), "last_frame_end": l, "schedules": scheds.iter().take(4).collect::<Vec<_>>(), "kinds": kinds.iter().map(|k| format!("{:?}", k)).collect::<Vec<_>>()}));
+    Ok(o)
+}
+
+type RunCounters = (u64, u64, u64, Vec<Vec<u16>>, Vec<ErrorKind>);
+
+/// All schedules and fault injections for one byte string whose last frame ends at `l`. `must_load` = false: a file
+/// that does not load in memory is skipped (returns None).
+fn run_on(bytes: &[u8], l: usize, t: &mut Tape, thorough: bool, salt: usize, model: &serde_json::Value, must_load: bool) -> Result<Option<RunCounters>, Failure> {
+    let detail = |extra: serde_json::Value| json!({"input_hex": if bytes.len() < 8000 { hex(bytes) } else { String::new() }, "model": model, "what": extra});
+    let base = match AsepriteFile::read(bytes) {
+        Ok(f) => f,
+        Err(_) if !must_load => return Ok(None),
+        Err(e) => return Err(Failure::new("load-error", format!("well-formed file failed to load: {}", e)).with(detail(json!(null)))),
+    };
     let want = observe(&base, true);
     let mut sched_count = 0u64;
     let mut interrupted = 0u64;
     // benign schedules
-    let scheds = schedules(&mut t, if thorough { 60 } else { 40 });
+    let scheds = schedules(t, if thorough { 60 } else { 40 });
     for (si, sc) in scheds.iter().enumerate() {
         let via_buf = t.below(3);
         let cap = 1 + t.below(8192) as usize;
-        let rd = SchedReader { data: bytes, pos: 0, sched: sc, idx: 0, err_at: None, reads: 0 };
+        let rd = SchedReader { data: bytes, pos: 0, sched: sc, idx: 0, err_at: None, reads: 0, one_shot: false, fired: false };
         let r = match via_buf {
             0 => AsepriteFile::read(rd),
             1 => AsepriteFile::read(BufReader::with_capacity(cap, rd)),
@@ -147,7 +208,7 @@ pub fn check(tape: &[u32], thorough: bool) -> CheckResult {
     {
         let dir = format!("{}/c14-scratch", target_dir());
         let _ = std::fs::create_dir_all(&dir);
-        let path = format!("{}/{}-{:016x}.ase", dir, std::process::id(), hash_bytes(bytes) ^ hash_bytes(&(tape.len() as u64).to_le_bytes()));
+        let path = format!("{}/{}-{:016x}.ase", dir, std::process::id(), hash_bytes(bytes) ^ hash_bytes(&(salt as u64).to_le_bytes()));
         std::fs::write(&path, bytes).map_err(|e| Failure::new("harness", format!("scratch write failed: {}", e)))?;
         let r = AsepriteFile::read_file(std::path::Path::new(&path));
         let _ = std::fs::remove_file(&path);
@@ -168,8 +229,11 @@ pub fn check(tape: &[u32], thorough: bool) -> CheckResult {
     for kind in &kinds {
         let mut k = 0usize;
         while k < l + 3 {
-            for (sched, buffered) in [(&[4096u16][..], false), (&sc_small[..], k % 7 == 0)] {
-                let rd = SchedReader { data: bytes, pos: 0, sched, idx: 0, err_at: Some((k, *kind)), reads: 0 };
+            for (sched, buffered, one_shot) in [(&[4096u16][..], false, false), (&sc_small[..], k % 7 == 0, false), (&[4096u16][..], k % 2 == 0, true)] {
+                if one_shot && k % 3 != 1 {
+                    continue;
+                }
+                let rd = SchedReader { data: bytes, pos: 0, sched, idx: 0, err_at: Some((k, *kind)), reads: 0, one_shot, fired: false };
                 let r = if buffered { AsepriteFile::read(BufReader::with_capacity(16, rd)) } else { AsepriteFile::read(rd) };
                 faults += 1;
                 if k < l {
@@ -211,16 +275,7 @@ pub fn check(tape: &[u32], thorough: bool) -> CheckResult {
             k += step;
         }
     }
-    let mut o = Outcome::new(true, hash_bytes(bytes));
-    o.counters.push(("schedules", sched_count));
-    o.counters.push(("schedules_with_interrupted", interrupted));
-    o.counters.push(("fault_injections", faults));
-    o.labels.push(if l <= 8192 { "every-offset".into() } else { "sampled-offsets".into() });
-    if enc.chunks.iter().any(|c| c.end - c.start > 65536 + 6) {
-        o.labels.push("chunk>64KiB".into());
-    }
-    o.sample = Some(json!({"file_len": bytes.len(), "last_frame_end": l, "schedules": scheds.iter().take(4).collect::<Vec<_>>(), "kinds": kinds.iter().map(|k| format!("{:?}", k)).collect::<Vec<_>>()}));
-    Ok(o)
+    Ok(Some((sched_count, interrupted, faults, scheds, kinds)))
 }
 
 pub fn run(run: &mut Run) {
@@ -234,5 +289,7 @@ pub fn run(run: &mut Run) {
 
 pub fn replay(case: &serde_json::Value) -> CheckResult {
     let tape = tape_from_case(case).ok_or_else(|| Failure::new("bad-replay", "no tape in replay file"))?;
+    // the tier decides how many schedules and error kinds are drawn from the tape: replay both readings
+    check_guarded(|| check(&tape, false))?;
     check_guarded(|| check(&tape, true))
 }
